@@ -1,6 +1,29 @@
 package dissect
 
-import "unicode"
+// Lower-cases an ASCII letter; every other byte (including the bytes
+// of multi-byte UTF-8 sequences) is left as-is
+func lowerASCII(c byte) byte {
+	if 'A' <= c && c <= 'Z' {
+		return c + ('a' - 'A')
+	}
+	return c
+}
+
+// Lower-cases the ASCII letters of a string, byte-for-byte (length preserving)
+// This is the same folding indexIgnoreCase applies to the searched string, so
+// anything that matches case-sensitively also matches when ignoring case
+func toLowerASCII(s string) string {
+	for i := 0; i < len(s); i++ {
+		if c := s[i]; 'A' <= c && c <= 'Z' {
+			b := []byte(s)
+			for j := i; j < len(b); j++ {
+				b[j] = lowerASCII(b[j])
+			}
+			return string(b)
+		}
+	}
+	return s
+}
 
 // Finds case-insensitive index of second string
 // ASSUMES second string is already lowered (optimization)
@@ -13,7 +36,7 @@ func indexIgnoreCase(s, loweredSubstr string) int {
 		return -1
 	case len(s) == n:
 		for i := 0; i < n; i++ {
-			if unicode.ToLower(rune(s[i])) != rune(loweredSubstr[i]) {
+			if lowerASCII(s[i]) != loweredSubstr[i] {
 				return -1
 			}
 		}
@@ -22,7 +45,7 @@ func indexIgnoreCase(s, loweredSubstr string) int {
 		for i := 0; i <= len(s)-n; i++ {
 			match := true
 			for j := 0; j < n; j++ {
-				if unicode.ToLower(rune(s[i+j])) != rune(loweredSubstr[j]) {
+				if lowerASCII(s[i+j]) != loweredSubstr[j] {
 					match = false
 					break
 				}
